@@ -6,6 +6,8 @@ import (
 	"iter"
 	"sync"
 	"sync/atomic"
+
+	"github.com/openfga/openfga/internal/verifhook"
 )
 
 // ErrInvalidCapacity indicates that a capacity value is invalid.
@@ -141,10 +143,13 @@ func (p *Queue[T]) Grow(n int) error {
 		return ErrInvalidCapacity
 	}
 
+	verifhook.Yield("G_l")
 	p.mu.Lock()
 	defer p.mu.Unlock()
 
+	verifhook.Yield("G_ext")
 	p.extend(uint(n))
+	verifhook.Yield("G_ok")
 	return nil
 }
 
@@ -201,31 +206,41 @@ func (p *Queue[T]) Seq(ctx context.Context) iter.Seq[T] {
 // doubles the buffer (if extensions remain) or parks on the full channel
 // until a Recv frees a slot.
 func (p *Queue[T]) Send(ctx context.Context, item T) bool {
+	verifhook.Yield("S_rl")
 	p.mu.RLock()
 	defer p.mu.RUnlock()
 
+	verifhook.Yield("S_chk")
 	if p.done.Load() || ctx.Err() != nil {
+		verifhook.Yield("S_fail")
 		return false
 	}
 
+	verifhook.Yield("S_ld")
 	pos := p.head.Load()
 
 	for !p.done.Load() && ctx.Err() == nil {
+		verifhook.Yield("S_seq")
 		cell := &p.data[p.mask(pos)]
 		seq := cell.Sequence.Load()
 		diff := seq - pos
 
 		if diff == 0 {
 			// Slot is writable. Try to claim it.
+			verifhook.Yield("S_cas")
 			if p.head.CompareAndSwap(pos, pos+1) {
+				verifhook.Yield("S_wr")
 				cell.Data = item
+				verifhook.Yield("S_pub")
 				// Publish: storing seq = pos+1 makes the slot readable.
 				cell.Sequence.Store(pos + 1)
+				verifhook.Yield("S_sig")
 				// Wake one parked receiver, if any.
 				select {
 				case p.empty <- struct{}{}:
 				default:
 				}
+				verifhook.Yield("S_ok")
 				return true
 			}
 		} else if diff < 0 {
@@ -237,31 +252,40 @@ func (p *Queue[T]) Send(ctx context.Context, item T) bool {
 			capacity := p.capacity
 			extensions := p.extensions
 			extended := p.extended
+			verifhook.Yield("S_ru")
 			p.mu.RUnlock()
 			if extensions < 0 || extended < extensions {
 				// Extensions remain: try to double the buffer.
 				// The capacity guard prevents a redundant extend if
 				// another sender already grew the buffer.
+				verifhook.Yield("S_xl")
 				p.mu.Lock()
+				verifhook.Yield("S_ext")
 				if capacity == p.capacity && !p.done.Load() && ctx.Err() == nil {
 					p.extend(uint(p.capacity) << 1)
 				}
+				verifhook.Yield("S_xu")
 				p.mu.Unlock()
 			} else {
 				// Extensions exhausted: park until a receiver frees a slot.
+				verifhook.Yield("S_park")
 				select {
 				case <-p.full:
 				case <-ctx.Done():
 				}
 			}
+			verifhook.Yield("S_rl2")
 			p.mu.RLock()
+			verifhook.Yield("S_ld2")
 			pos = p.head.Load()
 		} else {
 			// diff > 0: another sender claimed this position first.
 			// Re-read head and retry.
+			verifhook.Yield("S_re")
 			pos = p.head.Load()
 		}
 	}
+	verifhook.Yield("S_fail")
 	return false
 }
 
@@ -269,26 +293,33 @@ func (p *Queue[T]) Send(ctx context.Context, item T) bool {
 // empty. It returns false if the queue has been closed and fully
 // drained, or if ctx is cancelled.
 func (p *Queue[T]) Recv(ctx context.Context) (T, bool) {
+	verifhook.Yield("R_rl")
 	p.mu.RLock()
 	defer p.mu.RUnlock()
 
+	verifhook.Yield("R_ld")
 	pos := p.tail.Load()
 
 	for {
+		verifhook.Yield("R_seq")
 		cell := &p.data[p.mask(pos)]
 		seq := cell.Sequence.Load()
 		diff := seq - (pos + 1)
 
 		if diff == 0 {
 			// Slot is readable. Try to claim it.
+			verifhook.Yield("R_cas")
 			if p.tail.CompareAndSwap(pos, pos+1) {
+				verifhook.Yield("R_rd")
 				value := cell.Data
 				var zero T
 				cell.Data = zero
+				verifhook.Yield("R_rec")
 				// Recycle: storing seq = pos+capacity makes the slot
 				// writable again on the next pass through the ring.
 				cell.Sequence.Store(pos + int64(p.capacity))
 
+				verifhook.Yield("R_sig")
 				// Wake one parked sender, if any. The done guard
 				// is required because Recv may drain items after
 				// Close, at which point the full channel is closed
@@ -299,25 +330,33 @@ func (p *Queue[T]) Recv(ctx context.Context) (T, bool) {
 					default:
 					}
 				}
+				verifhook.Yield("R_ok")
 				return value, true
 			}
 		} else if diff < 0 {
 			// Slot has not been written yet: the buffer is empty.
+			verifhook.Yield("R_dn")
 			if p.done.Load() || ctx.Err() != nil {
+				verifhook.Yield("R_fail")
 				var zero T
 				return zero, false
 			}
+			verifhook.Yield("R_ru")
 			// Park until a sender publishes a value.
 			p.mu.RUnlock()
+			verifhook.Yield("R_park")
 			select {
 			case <-p.empty:
 			case <-ctx.Done():
 			}
+			verifhook.Yield("R_rl2")
 			p.mu.RLock()
+			verifhook.Yield("R_ld2")
 			pos = p.tail.Load()
 		} else {
 			// diff > 0: another receiver claimed this position first.
 			// Re-read tail and retry.
+			verifhook.Yield("R_re")
 			pos = p.tail.Load()
 		}
 	}
@@ -326,11 +365,14 @@ func (p *Queue[T]) Recv(ctx context.Context) (T, bool) {
 // Close shuts down the queue. Blocked Send and Recv calls are woken and
 // return false. It is safe to call Close multiple times.
 func (p *Queue[T]) Close() {
+	verifhook.Yield("C_l")
 	p.mu.Lock()
 	defer p.mu.Unlock()
 
+	verifhook.Yield("C_cl")
 	if !p.done.Swap(true) {
 		close(p.empty)
 		close(p.full)
 	}
+	verifhook.Yield("C_ok")
 }
